@@ -188,5 +188,33 @@ impl RunState {
         ensures r == sext(v, bits as int),
 //@end
 
+/// the guards of the case-split twins of step_ref cover every instruction word
+proof fn lemma_opcode_cases_exhaustive(i: u16)
+    ensures (i >> 12u16) < 16,
+{ assert((i >> 12u16) < 16) by (bit_vector); }
+
+// ---- executable reference of the whole step oracle (used by the native differential enumeration verif_native_execute)
+//@item verif:kani/harness/ref_step.rs struct RefState derive=
+//@item verif:kani/harness/ref_step.rs enum RefStep derive=
+spec fn rview(s: RefState) -> MState { MState { reg: s.reg@, mem: s.mem@, pc: s.pc, cc: s.cc, orig: 0, psr: 0 } }
+//@fn verif:kani/harness/ref_step.rs - ref_cc ret=r props=C02
+        ensures r == cc_of(v),
+//@end
+//@fn verif:kani/harness/ref_step.rs - ref_set_reg_cc props=C02
+        requires dr < 8,
+        ensures rview(*final(s)) == set_reg_cc(rview(*old(s)), dr as int, v), final(s).mem@.len() == old(s).mem@.len(),
+//@end
+//@fn verif:kani/harness/ref_step.rs - step_ref ret=r props=C02
+//@cases i >> 12u16 == 0 | i >> 12u16 == 1 | i >> 12u16 == 2 | i >> 12u16 == 3 | i >> 12u16 == 4 | i >> 12u16 == 5 | i >> 12u16 == 6 | i >> 12u16 == 7 | i >> 12u16 == 8 | i >> 12u16 == 9 | i >> 12u16 == 10 | i >> 12u16 == 11 | i >> 12u16 == 12 | i >> 12u16 == 13 | i >> 12u16 == 14 | i >> 12u16 == 15
+        requires old(s).mem@.len() == 65536,
+        ensures
+            final(s).mem@.len() == 65536,
+            match step_spec(rview(*old(s)), i, stack_on) {
+                Step::Next(t) => r is Next && mstate_eq(rview(*final(s)), t),
+                Step::Exit(c) => r == RefStep::Exit(c as i32) && rview(*final(s)) == rview(*old(s)),
+                Step::Unspecified => r is Unspecified && rview(*final(s)) == rview(*old(s)),
+            },
+//@end
+
 } // verus!
 fn main() {}
